@@ -212,6 +212,11 @@ fn gen(t: &mut Tape, _tier: Tier) -> Scenario {
             f.extend_from_slice(&payload);
             sc.set_b("input", f);
             if which == 3 {
+                // a third of the Stream runs allow incomplete input: finish then skips
+                // its last pass, so the refusal has to come from the write that meets
+                // the copy (every byte of the symbol, and the encoder's flush bytes
+                // after it, has been written by then)
+                opts.allow_incomplete = t.below(3) == 0;
                 let mut ops = Vec::new();
                 if t.below(2) == 1 {
                     let k = t.range(1, 50);
@@ -378,8 +383,35 @@ fn exec(sc: &Scenario, ctx: &mut Ctx) -> Vec<Violation> {
         Faults::none(),
         Faults::none(),
     );
+    // With incomplete input allowed, `finish` decodes nothing more: a stream is only
+    // looked at by write calls made after the header and the 5-byte preamble have been
+    // taken in. If no such call was offered a byte (everything arrived with the call
+    // that completed the header), the copy was never reached and Ok with a proper
+    // prefix is what the option promises (C15) - that case is tolerated, no other.
+    let mut never_looked_at = false;
     let (v, events, log) = if ep == EP_STREAM {
         let o = run_stream(sc.b("input"), sc.l("ops"), &opts, sink, &st, false);
+        if opts.allow_incomplete {
+            let mut cum = 0usize;
+            let mut header_done_at: Option<usize> = None;
+            for (i, e) in o.events.iter().enumerate() {
+                if !matches!(e.op, OP_WRITE | OP_WRITE_ALL | OP_WRITE_N) {
+                    continue;
+                }
+                if let Some(h) = header_done_at {
+                    if i > h && e.offered > 0 {
+                        header_done_at = Some(usize::MAX - 1); // marker: looked at
+                        break;
+                    }
+                } else if let Ok(n) = e.result {
+                    cum += n;
+                    if cum >= 13 + 5 {
+                        header_done_at = Some(i);
+                    }
+                }
+            }
+            never_looked_at = header_done_at != Some(usize::MAX - 1);
+        }
         (stream_verdict(&o), o.events.len() as u64, 0)
     } else {
         let (v, ro) = run_with_reader(
@@ -446,6 +478,13 @@ fn exec(sc: &Scenario, ctx: &mut Ctx) -> Vec<Violation> {
             sc,
         )];
     }
+    if v.is_ok() && never_looked_at {
+        ctx.stats.hit("probe.incomplete_input_allowed_and_copy_never_looked_at");
+        return Vec::new();
+    }
+    if opts.allow_incomplete && ep == EP_STREAM {
+        ctx.stats.hit("arm.stream_with_incomplete_input_allowed");
+    }
     if v.is_ok() {
         return vec![Violation::new(
             "accepts_out_of_window_copy",
@@ -460,7 +499,7 @@ fn exec(sc: &Scenario, ctx: &mut Ctx) -> Vec<Violation> {
 pub static C09: SimpleProp = SimpleProp {
     id: "C09",
     level: "exploration",
-    rule: "one evaluation = one decode of (valid reference-encoded prefix + one illegal copy: distance produced+1, dictionary+1, one lap back, 2^31, 2^32-1, stale repeated distance at stream start or across an LZMA2 dictionary reset, matched literal with stale rep0) followed by a declared size, an end marker, or nothing at all (size unknown), placed at wrap-relative positions 0,1,dict-1,dict,dict+1,k*dict±1 and random; circular window via lzma_decompress / raw decoder (dictionary 1..64, 4096..) / Stream, with no memory limit, one >= the dictionary, or one below it (the delivered bytes must then still be a prefix of what the symbols define), accumulating window via LZMA2 plain and inside .xz; every case distinct by scenario hash and non-trivial by construction",
+    rule: "one evaluation = one decode of (valid reference-encoded prefix + one illegal copy: distance produced+1, dictionary+1, one lap back, 2^31, 2^32-1, stale repeated distance at stream start or across an LZMA2 dictionary reset, matched literal with stale rep0) followed by a declared size, an end marker, or nothing at all (size unknown), placed at wrap-relative positions 0,1,dict-1,dict,dict+1,k*dict±1 and random; circular window via lzma_decompress / raw decoder (dictionary 1..64, 4096..) / Stream (a third of them with incomplete input allowed), with no memory limit, one >= the dictionary, or one below it (the delivered bytes must then still be a prefix of what the symbols define), accumulating window via LZMA2 plain and inside .xz; every case distinct by scenario hash and non-trivial by construction",
     runs_quick: 200_000,
     runs_thorough: 24_000_000,
     both_profiles: false,
